@@ -142,7 +142,6 @@ func (r *Run) configure() {
 	t.Frame()
 	ticks := []time.Duration{100 * time.Nanosecond, time.Microsecond, 10 * time.Microsecond, 137 * time.Microsecond}
 	r.Sim.tick = ticks[t.Intn(len(ticks))]
-	r.Sim.spinAfter = 6000 // per step (StepBegin); no step on the unchanged tree reaches a fifth of it
 	r.nTopics = 1 + t.Intn(4)
 	r.nSubs = 1 + t.Intn(6)
 	r.faultsOn = t.Bool(40)
@@ -1725,6 +1724,10 @@ func (r *Run) setup() *Violation {
 // RunHist executes one history inside the bubble; steps is the number of generated steps.
 func RunHist(r *Run, steps int) *Violation {
 	r.configure()
+	// tick escalation per step (StepBegin in step()); no step on the unchanged tree reaches a
+	// third of this (largest seen: about 3 100 events). Only here: engines that merely borrow configure() (atomic, wake, stream,
+	// push) count per run and keep the default
+	r.Sim.spinAfter = 15000
 	if v := r.setup(); v != nil {
 		return v
 	}
